@@ -1,3 +1,163 @@
-From HV Require Import Base.Prelude.
-Theorem C02_placeholder : True. Proof. exact I. Qed.
-Print Assumptions C02_placeholder.
+(* Property C02: attribute write/delete histories behave like a name -> value map.
+   Statements only; the model is Model/Attr.v (transcription of attribute_write.go and the functions it calls,
+   one object, handle without cached header), proofs are in Proofs/Attr*.v.
+
+   Reading guide.
+     run name_hash P init h = (st, rs)   replay history h (WriteAttribute / DeleteAttribute calls) on a fresh
+                                         object; st = storage state of the object in the file, rs = answers
+     read_attrs st = Some l              what Attributes() lists after Close and reopen
+     run_spec [] h rs                    the map obtained by applying the SUCCESSFUL calls of h in order
+     results_ok [] h rs                  the answers are the ones the map semantics demands: DeleteAttribute
+                                         succeeds exactly on present names, a value the API cannot encode is
+                                         refused, WriteAttribute succeeds or is refused (capacity limits:
+                                         C02_write_refusals_dense and _compact)
+     NoHashCollision name_hash (names h) no two distinct names used in h have the same lookup3 hash
+     st <> Broken                        the fractal heap never overflowed WITHOUT the call being refused; this can
+                                         only happen for p_ovf_err P = false, the tree before 5ec600b
+                                         (C02_refines_map_volume: closed form, total encoded size of all written
+                                         values <= p_hcap P = 65517 bytes).  For the current tree the condition is
+                                         void: C02_refines_map_repaired / C02_refines_map_go
+   All theorems hold for every parameter setting P with p_hcap P <= 65536 (header limit, compact threshold,
+   index and heap capacities are parameters, not constants). *)
+From HV Require Import Base.Prelude Model.Attr Model.AttrTie.
+From HV Require Import Proofs.AttrBase Proofs.AttrStep Proofs.Attr Proofs.AttrCollision Proofs.AttrRefusal.
+From Coq Require Import Permutation.
+
+(* ---- 1. refinement of the map, names unique ---- *)
+Theorem C02_refines_map : forall name_hash P, p_hcap P <= 65536 -> forall h st rs,
+  NoHashCollision name_hash (names h) ->
+  run name_hash P init h = (st, rs) -> st <> Broken ->
+  exists l, read_attrs st = Some l /\ NoDup (map aname l) /\
+            (forall n, attr_get l n = sp_get (run_spec [] h rs) n) /\
+            results_ok [] h rs.
+Proof. exact refines_map. Qed.
+Print Assumptions C02_refines_map.
+
+(* the same, "as a set": the listed attributes are exactly the bindings of the map *)
+Theorem C02_refines_map_set : forall name_hash P, p_hcap P <= 65536 -> forall h st rs,
+  NoHashCollision name_hash (names h) ->
+  run name_hash P init h = (st, rs) -> st <> Broken ->
+  exists l, read_attrs st = Some l /\
+            forall n v, In (mkAttr n v) l <-> In (n, v) (bindings (run_spec [] h rs)).
+Proof. exact refines_map_set. Qed.
+Print Assumptions C02_refines_map_set.
+
+(* side condition in closed form (for p_ovf_err = false) *)
+Theorem C02_refines_map_volume : forall name_hash P h st rs,
+  p_hcap P <= 65536 ->
+  NoHashCollision name_hash (names h) ->
+  volume h <= p_hcap P ->
+  run name_hash P init h = (st, rs) ->
+  exists l, read_attrs st = Some l /\ NoDup (map aname l) /\
+            (forall n, attr_get l n = sp_get (run_spec [] h rs) n) /\
+            results_ok [] h rs.
+Proof. exact refines_map_volume. Qed.
+Print Assumptions C02_refines_map_volume.
+
+(* no side condition on the volume when a heap overflow is refused (the tree since 5ec600b) *)
+Theorem C02_refines_map_repaired : forall name_hash P, p_ovf_err P = true -> forall h st rs,
+  p_hcap P <= 65536 ->
+  NoHashCollision name_hash (names h) ->
+  run name_hash P init h = (st, rs) ->
+  exists l, read_attrs st = Some l /\ NoDup (map aname l) /\
+            (forall n, attr_get l n = sp_get (run_spec [] h rs) n) /\
+            results_ok [] h rs.
+Proof. exact refines_map_repaired. Qed.
+Print Assumptions C02_refines_map_repaired.
+
+(* ... in particular for the parameter values of the current source tree (go_params: header limit 255, threshold 8,
+   371 index records, 65517 heap bytes, overflow refused since 5ec600b), any size of the object's own header messages *)
+Theorem C02_refines_map_go : forall name_hash base h st rs,
+  NoHashCollision name_hash (names h) ->
+  run name_hash (go_params base) init h = (st, rs) ->
+  exists l, read_attrs st = Some l /\ NoDup (map aname l) /\
+            (forall n, attr_get l n = sp_get (run_spec [] h rs) n) /\
+            results_ok [] h rs.
+Proof. exact refines_map_go. Qed.
+Print Assumptions C02_refines_map_go.
+
+Theorem C02_names_unique : forall name_hash P, p_hcap P <= 65536 -> forall h st rs l,
+  NoHashCollision name_hash (names h) ->
+  run name_hash P init h = (st, rs) -> read_attrs st = Some l -> NoDup (map aname l).
+Proof. exact names_unique. Qed.
+Print Assumptions C02_names_unique.
+
+(* ---- 2. a call that does not return success leaves the object exactly as it was (C16 for attributes);
+        in particular the dense delete+insert path cannot lose the old value on an error ---- *)
+Theorem C02_err_unchanged : forall name_hash P st o st' r,
+  step name_hash P st o = (st', r) -> r <> ROk -> st' = st.
+Proof. exact err_unchanged. Qed.
+Print Assumptions C02_err_unchanged.
+
+(* ---- 3. when and only when WriteAttribute is refused (reachable states; capacity side conditions) ---- *)
+Theorem C02_write_refusals_dense : forall name_hash P, p_hcap P <= 65536 -> forall ix hp l n v st' r,
+  Rep name_hash P (Dense ix hp) l -> NoDup (map aname l) ->
+  (forall m, In m (map aname l) -> name_hash m = name_hash n -> m = n) ->
+  write_attr name_hash P (Dense ix hp) n (Some v) = (st', r) -> r = RErr ->
+  dense_refusal P (Dense ix hp) l (mkAttr n v).
+Proof. exact write_refusals_dense. Qed.
+Print Assumptions C02_write_refusals_dense.
+
+Theorem C02_write_refusals_compact : forall name_hash P attrs n v st' r,
+  EncAll attrs -> NoDup (map aname attrs) ->
+  NoHashCollision name_hash (n :: map aname attrs) ->
+  hdr_size P attrs <= p_limit P -> p_limit P <= p_maxobj P ->
+  write_attr name_hash P (Compact attrs) n (Some v) = (st', r) -> r = RErr ->
+  compact_refusal P attrs (mkAttr n v).
+Proof. exact write_refusals_compact. Qed.
+Print Assumptions C02_write_refusals_compact.
+
+(* ---- 4. the compact -> dense transition lists the same attributes plus the new one ---- *)
+Theorem C02_transition_preserves : forall name_hash P, p_hcap P <= 65536 -> forall attrs a ix hp,
+  transition name_hash P attrs a = (Dense ix hp, ROk) ->
+  exists l, read_attrs (Dense ix hp) = Some l /\ Permutation l (attrs ++ [a]).
+Proof. exact transition_preserves. Qed.
+Print Assumptions C02_transition_preserves.
+
+(* ---- 5. the storage form is irrelevant: two settings of the thresholds (which put the attributes into
+        compact / dense storage at different times) that give the same answers list the same map ---- *)
+Theorem C02_storage_irrelevant : forall name_hash P1 P2 h st1 st2 rs l1 l2,
+  p_hcap P1 <= 65536 -> p_hcap P2 <= 65536 ->
+  NoHashCollision name_hash (names h) ->
+  run name_hash P1 init h = (st1, rs) -> run name_hash P2 init h = (st2, rs) ->
+  read_attrs st1 = Some l1 -> read_attrs st2 = Some l2 ->
+  forall n, attr_get l1 n = attr_get l2 n.
+Proof. exact storage_irrelevant. Qed.
+Print Assumptions C02_storage_irrelevant.
+
+(* ---- 6. without the no-collision hypothesis the statement is false ---- *)
+Definition C02_full : Prop := full_statement lk3 (go_params 58).
+
+Theorem C02_full_refuted : ~ C02_full.
+Proof. exact full_refuted_lookup3. Qed.
+Print Assumptions C02_full_refuted.
+
+(* the witness: two names with equal lookup3 hash ("ayou", "cpxv"; found by the C14 search) *)
+Theorem C02_collision_refuted :
+  exists a b : bytes, a <> b /\ lk3 a = lk3 b /\
+    (let h := hist_overwrite a b in
+     let '(st, rs) := run lk3 (go_params 58) init h in
+     rs = [ROk; ROk] /\ sp_get (run_spec [] h rs) a = Some big_value /\
+     exists l, read_attrs st = Some l /\ attr_get l a = None /\ List.length l = 1%nat) /\
+    (let h := hist_delete a b in
+     let '(st, rs) := run lk3 (go_params 58) init h in
+     rs = [ROk; ROk] /\
+     snd (spec_delete (run_spec [] [OWrite a (Some big_value)] [ROk]) b) = RErr /\
+     read_attrs st = Some []).
+Proof. exact collision_refuted_lookup3. Qed.
+Print Assumptions C02_collision_refuted.
+
+(* and for ANY hash function under which two names (here "a", "b") collide *)
+Theorem C02_collision_refuted_abstract : forall name_hash : bytes -> N,
+  name_hash [97] = name_hash [98] ->
+  (let h := hist_overwrite [97] [98] in
+   let '(st, rs) := run name_hash (go_params 58) init h in
+   rs = [ROk; ROk] /\ sp_get (run_spec [] h rs) [97] = Some big_value /\
+   exists l, read_attrs st = Some l /\ attr_get l [97] = None /\ List.length l = 1%nat) /\
+  (let h := hist_delete [97] [98] in
+   let '(st, rs) := run name_hash (go_params 58) init h in
+   rs = [ROk; ROk] /\
+   snd (spec_delete (run_spec [] [OWrite [97] (Some big_value)] [ROk]) [98]) = RErr /\
+   read_attrs st = Some []).
+Proof. exact collision_refuted_abstract. Qed.
+Print Assumptions C02_collision_refuted_abstract.
